@@ -143,6 +143,23 @@ func init() {
 			}
 		}
 		out.Data["zoo_classes"] = zooClasses(certZoo())
+		// e_key_usage_and_extended_key_usage_inconsistent against its full model; the table comes from the running build
+		out.Data["ku_eku_table_coq"] = kuEkuTableCoq()
+		{
+			seenK := map[string]bool{}
+			for _, zc := range certZoo() {
+				if term, tag, ok := kuEkuCase(zc.Cert); ok && !seenK[term] {
+					seenK[term] = true
+					out.Add("kueku", Case{Coq: term, Tag: tag, Desc: map[string]interface{}{"object": zc.File, "ekus": fmt.Sprint(zc.Cert.ExtKeyUsage), "ku": int(zc.Cert.KeyUsage)}})
+				}
+			}
+			for _, cc := range corpus.Certs {
+				if term, tag, ok := kuEkuCase(cc.Cert); ok && !seenK[term] {
+					seenK[term] = true
+					out.Add("kueku", Case{Coq: term, Tag: tag, Desc: map[string]interface{}{"object": cc.File, "ekus": fmt.Sprint(cc.Cert.ExtKeyUsage), "ku": int(cc.Cert.KeyUsage)}})
+				}
+			}
+		}
 		if tier() != "thorough" {
 			reps = 4
 		}
